@@ -49,8 +49,8 @@ EXHAUSTIVE = {"thorough": False}
 
 FAULTS = ["sinkfail", "sinkpanic", "kill", "diebefore", "dieafter", "srcfail", "sinkreject"]
 FAULT_COQ = {"none": "FNone", "sinkfail": "FSinkFail", "sinkpanic": "FSinkPanic", "kill": "FKill",
-             "diebefore": "FDieBefore", "dieafter": "FDieAfter", "srcfail": "FSrcFail", "sinkreject": "FSinkReject"}
-HANDLER_COQ = {"requeue": "HReQueue", "rerun": "HReRun"}
+             "diebefore": "FDieBefore", "dieafter": "FDieAfter", "srcfail": "FSrcFail", "sinkreject": "FSinkReject", "slow": "FNone"}
+HANDLER_COQ = {"requeue": "HReQueue", "rerun": "HReRun", "log": "HLog"}
 HANDLER_SETS = [[], [], ["requeue"], ["rerun"], ["requeue", "rerun"]]
 OUTCOME = {"ok": 0, "failed": 1, "died": 2}
 
@@ -69,10 +69,12 @@ def R(full=False, fault="none", at=0):
 
 DROP = {"op": "drop"}
 CREATE = {"op": "create"}
+LEASE = {"op": "lease"}   # an http client opened a fullsync on the sink without a sync id and went away (lease = 1 s)
 
 
-def mk(ops, batch=2, los=(False,), union=False, handlers=()):
-    return {"members": len(los), "union": union, "los": list(los), "batch": batch, "handlers": list(handlers), "ops": ops}
+def mk(ops, batch=2, los=(False,), union=False, handlers=(), sink="dataset", srchttp=False):
+    return {"members": len(los), "union": union, "los": list(los), "batch": batch, "handlers": list(handlers),
+            "sink": sink, "srchttp": srchttp, "ops": ops}
 
 
 def witness_cases():
@@ -112,6 +114,25 @@ def witness_cases():
            batch=2, handlers=("requeue", "rerun")),
         mk([W(0, [(1, 1, 0, 0), (2, 1, 0, 0)]), W(1, [(11, 1, 0, 0), (12, 1, 0, 0)]), R(False, "sinkreject", 11), R(True), R()],
            batch=3, los=(False, True), union=True, handlers=("rerun",)),
+        # HttpDatasetSink -> the hub's own POST handler.  A fullsync then pages the source through MapEntities
+        # (entities mode, token not stored); union of two members, one larger than the batch size
+        mk([W(0, [(1, 1, 0, 0), (2, 1, 0, 0), (3, 1, 0, 0), (4, 1, 0, 0), (5, 1, 0, 0)]), W(1, [(11, 1, 0, 0)]),
+            SW([(100, 1, 0, 0)]), R(True), R(), R()], batch=2, los=(False, False), union=True, sink="http"),
+        mk([W(0, [(1, 1, 0, 0), (2, 1, 0, 0), (1, 2, 0, 0), (3, 1, 0, 1)]), R(False, "kill", 0), R(True), W(0, [(2, 2, 0, 0)]), R()],
+           batch=1, sink="http"),
+        # ... with a log handler and a receiver that refuses one entity after it accepted earlier batches
+        mk([W(0, [(1, 1, 0, 0), (2, 1, 0, 0), (3, 1, 0, 0), (4, 1, 0, 0), (5, 1, 0, 0), (6, 1, 0, 0)]),
+            R(True, "sinkreject", 4), R()], batch=2, handlers=("log",), sink="http"),
+        mk([W(0, [(1, 1, 0, 0), (2, 1, 0, 0), (3, 1, 0, 0), (2, 2, 0, 0)]), SW([(100, 1, 0, 0)]), R(),
+            R(True, "sinkreject", 3)], batch=3, handlers=("log",), sink="http"),
+        # HttpDatasetSource reading the hub's /changes endpoint with its own latestOnly / limit parameters
+        mk([W(0, [(1, 1, 0, 0), (2, 1, 0, 0), (3, 1, 0, 0), (4, 1, 0, 0)]), W(0, [(3, 2, 0, 0), (4, 2, 0, 0)]), R(), R()],
+           batch=2, los=(True,), srchttp=True),
+        mk([W(0, [(1, 1, 0, 0), (2, 1, 0, 0), (1, 2, 0, 0)]), R(False, "diebefore", 0), W(0, [(2, 2, 0, 0), (1, 3, 0, 0)]), R(), R(True), R()],
+           batch=1, los=(True,), srchttp=True),
+        # an abandoned id-less http fullsync lease (1 s) on the sink, then a fullsync job run that outlives it
+        mk([SW([(100, 1, 0, 0)]), W(0, [(1, 1, 0, 0), (2, 1, 0, 0), (3, 1, 0, 0), (4, 1, 0, 0)]), dict(LEASE),
+            R(True, "slow", 400), R()], batch=1),
         # plain behaviour: death between sink write and token store, then recovery and a no-op run
         mk([W(0, [(1, 1, 0, 0), (2, 2, 0, 0), (3, 3, 0, 0)]), R(), W(0, [(1, 4, 0, 0)]), R(False, "diebefore", 0), R(), R()]),
         mk([W(0, [(1, 1, 0, 0), (2, 2, 0, 0), (3, 3, 0, 0)]), W(1, [(11, 1, 0, 0), (12, 2, 0, 0), (11, 3, 0, 0)]),
@@ -238,12 +259,66 @@ def enum_cases(rng, sample=None):
     return out
 
 
+def transport_cases(rng, count):
+    """http sink / http source; fullsyncs to an http sink only fault-free or log + refused entity"""
+    out = []
+    for _ in range(count):
+        x = rng.below(3)
+        if x == 0:      # http source (single), any fault
+            lo = rng.chance(1, 2)
+            pool = [1, 2, 3, 4]
+            ops = []
+            for _ in range(rng.range(2, 5)):
+                if rng.chance(1, 2) or not ops:
+                    ops.append(W(0, [rand_version(rng, pool) for _ in range(rng.range(1, 4))]))
+                else:
+                    f, at = rand_fault(rng, ids=pool)
+                    ops.append(R(rng.chance(1, 4), f, at))
+            ops += [R(False, "none", 0), R(False, "none", 0)]
+            out.append(mk(ops, batch=rng.range(1, 4), los=(lo,), srchttp=True, handlers=rng.choice(HANDLER_SETS)))
+        else:           # http sink
+            log = (x == 2)
+            # (log + refused entity: single source and batch >= 2, so that the recorded outcome of the run does not
+            #  depend on the page order - wrappedSink forgets the error after a later unsplit batch; that is C17's)
+            union, los = (False, (False,)) if log else rand_shape(rng)
+            n = len(los)
+            pools = [[k * 10 + 1, k * 10 + 2, k * 10 + 3, k * 10 + 4] for k in range(n)]
+            ops = []
+            for k in range(n):
+                ops.append(W(k, [rand_version(rng, pools[k]) for _ in range(rng.range(2, 6))]))
+            if rng.chance(1, 3):
+                ops.append(SW([rand_version(rng, [100, 101])]))
+            for _ in range(rng.range(1, 4)):
+                y = rng.below(4)
+                if y == 0:
+                    k = rng.below(n)
+                    ops.append(W(k, [rand_version(rng, pools[k]) for _ in range(rng.range(1, 3))]))
+                elif y == 1 and not log:
+                    f, at = rand_fault(rng, ids=pools[rng.below(n)])
+                    if f in ("sinkreject", "slow"):
+                        f, at = "none", 0
+                    ops.append(R(False, f, at))
+                elif y == 2:
+                    ops.append(R(False, "none", 0))
+                else:
+                    ops.append(R(True, "none", 0))
+            ents = not ((not union) and los[0])
+            if log and ents:
+                ops.append(R(True, "sinkreject", rng.choice(pools[rng.below(n)])))
+            else:
+                ops.append(R(True, "none", 0))
+            ops.append(R(False, "none", 0))
+            out.append(mk(ops, batch=(rng.range(2, 4) if log else rng.range(1, 4)), los=los, union=union, sink="http",
+                          handlers=(("log",) if log else rng.choice(HANDLER_SETS))))
+    return out
+
+
 def gen(rng, tier):
     if tier == "quick":
-        return enum_cases(rng, 110) + [rand_case(rng) for _ in range(110)]
+        return enum_cases(rng, 100) + [rand_case(rng) for _ in range(100)] + transport_cases(rng, 40)
     if tier == "search":
-        return [rand_case(rng, 10) for _ in range(300)]
-    return enum_cases(rng) + [rand_case(rng, 10) for _ in range(1500)]
+        return [rand_case(rng, 10) for _ in range(260)] + transport_cases(rng, 60)
+    return enum_cases(rng) + [rand_case(rng, 10) for _ in range(1500)] + transport_cases(rng, 300)
 
 
 def run(binp, cases):
@@ -284,18 +359,21 @@ def _term(c, o):
             ops.append("TDrop")
         elif op["op"] == "create":
             ops.append("TCreate")
+        elif op["op"] == "lease":
+            continue   # nothing in the model: the job's StartFullSync abandons the stale http fullsync
         else:
-            r = runs[ri] if ri < len(runs) else {"outcome": "missing", "token": [], "sink": [], "sinklen": -1, "srclens": []}
+            r = runs[ri] if ri < len(runs) else {"outcome": "missing", "token": [], "sink": [], "sinklen": -1, "srclens": [],
+                                                 "sinknew": []}
             ri += 1
-            flt = FAULT_COQ[op["fault"]] + ("" if op["fault"] == "none" else " %s" % vlib.zlit(op["at"]))
-            ops.append("TRun (mkTR %s (%s) %d%%N %s %s %s %s)" % (
+            flt = FAULT_COQ[op["fault"]] + ("" if op["fault"] in ("none", "slow") else " %s" % vlib.zlit(op["at"]))
+            ops.append("TRun (mkTR %s (%s) %d%%N %s %s %s %s %s)" % (
                 vlib.coq_bool(op.get("full", False)), flt, OUTCOME.get(r["outcome"], 9),
                 zl(r.get("token") or []), vlist(r.get("sink") or []), vlib.zlit(r.get("sinklen", -1)),
-                zl(r.get("srclens") or [])))
+                zl(r.get("srclens") or []), vlist(r.get("sinknew") or [])))
     srcs = o.get("srcs") or []
-    return "mkTC %d %s %s %d %s %s %s" % (
+    return "mkTC %d %s %s %d %s %s %s %s" % (
         c["members"], vlib.coq_bool(c["union"]), vlib.coq_list([vlib.coq_bool(b) for b in c["los"]]), c["batch"],
-        vlib.coq_list([HANDLER_COQ[h] for h in c.get("handlers") or []]),
+        vlib.coq_list([HANDLER_COQ[h] for h in c.get("handlers") or []]), vlib.coq_bool(c.get("sink") == "http"),
         vlib.coq_list(["\n   " + x for x in ops]), vlib.coq_list([vlist(f) for f in srcs]))
 
 
